@@ -144,7 +144,7 @@ def run(tier: str, seed: int, t0: float) -> int:
     stats.counts["distinct_kind_pairs"] = kinds_seen
     for key, least in (("verdict:ok", 800), ("distinct_kind_pairs", 15)):
         if stats.counts.get(key, 0) < least:
-            raise core.MachineryError(f"vacuity gate: {key}={stats.counts.get(key, 0)} < {least}")
+            core.vacuity(out, f"vacuity gate: {key}={stats.counts.get(key, 0)} < {least}")
     return core.finish("C17", tier, seed, stats, out, t0,
                        rule="(document, step A, step B) with both applying and touched ranges separated by at least one untouched token; steps enumerated over "
                             "TLC-generated documents (all eight kinds) and first steps of pairs of random high-level operations on bundled documents; "
